@@ -36,8 +36,7 @@
    versions compared through 16-bit words, as the code does) admits the ABA "waiter pre-empted for exactly 2^15 rounds". *)
 From Coq Require Import ZArith List Bool.
 Require Import Verif.Gen.Gen_bounded_queue Verif.Conc.Machine Verif.BQ.BQModel Verif.BQ.BQProofs.
-Require Import Verif.BQ.BQInvDefs Verif.BQ.BQInvStep Verif.BQ.BQInvMain Verif.BQ.BQInvThm Verif.BQ.BQWake Verif.BQ.BQFifo Verif.BQ.BQTry Verif.BQ.BQTso.
-Require Import Verif.WM.TSO Verif.WM.Litmus Verif.WM.LitmusProofs.
+Require Import Verif.BQ.BQInvDefs Verif.BQ.BQInvStep Verif.BQ.BQInvMain Verif.BQ.BQInvThm Verif.BQ.BQWake Verif.BQ.BQFifo Verif.BQ.BQTry.
 Import ListNotations.
 Local Open Scope Z_scope.
 
@@ -139,32 +138,6 @@ Theorem c02_finished_threads_idle : forall k progs s u thu, usage_ok k progs = t
 Proof. exact bq_finished_idle. Qed.
 Print Assumptions c02_finished_threads_idle.
 
-(* ---- store-buffer (TSO) half of "no lost wakeup": the batch waker / waiter skeleton on the explicit store-buffer machine of
-   coq/WM.  waker = 16-bit relaxed version store; [the fence of deal_n_continuously / try_deal_n_continuously as regenerated
-   from the source: present in the skeleton iff it is seq_cst]; load of the waiter half (wakeup_waiters).  waiter = CAS-set
-   waiter bit while the version is still old; futex_wait's kernel-side compare.  For EVERY schedule of instruction steps and
-   store-buffer flushes no execution parks the waiter while the waker misses its waiter bit.  Weakening or removing either
-   fence in the source flips the regenerated flag and this theorem fails; c02_wake_batch_without_fence_refuted is the
-   statement that an execution then exists (bin/check prints it as the replay of a wm- violation).  The single-element waker
-   is one exchange (read-modify-write) of the whole word: safe on the store-buffer machine without any fence. *)
-Theorem c02_wake_batch_tso : forall sch,
-  (final (run (init [waker deal_n_fence_is_seq_cst; waiter]) sch) = true ->
-   lost_wakeup (result (run (init [waker deal_n_fence_is_seq_cst; waiter]) sch)) = false) /\
-  (final (run (init [waker try_deal_n_fence_is_seq_cst; waiter]) sch) = true ->
-   lost_wakeup (result (run (init [waker try_deal_n_fence_is_seq_cst; waiter]) sch)) = false).
-Proof. exact bq_wake_batch_tso. Qed.
-Print Assumptions c02_wake_batch_tso.
-
-Theorem c02_wake_single_tso : xchg_waker_is_rmw = true /\
-  forall sch, final (run (init [xchg_waker; waiter]) sch) = true ->
-              xchg_lost (result (run (init [xchg_waker; waiter]) sch)) = false.
-Proof. exact bq_wake_single_tso. Qed.
-Print Assumptions c02_wake_single_tso.
-
-Theorem c02_wake_batch_without_fence_refuted : batch_wake_safe false = false.
-Proof. exact batch_wake_unfenced_refuted. Qed.
-Print Assumptions c02_wake_batch_without_fence_refuted.
-
 (* ---- full-strength statement that is NOT proved (see header): kept visible, checked by exploration + monitors ---- *)
 Definition balanced (progs : list (list op)) : Prop :=
   fold_right Nat.add 0%nat (map onum (side_ops true (all_ops progs))) =
@@ -184,3 +157,31 @@ Example c02_reach_example :
   exists s, Reach 0 [[OPush f111 1]; [OPop f111]] s /\ existsb parked_b (threads s) = true /\
             existsb wake_pending_b (threads s) = true /\ err s = false.
 Proof. exact bq_reach_example. Qed.
+
+(* ---- store-buffer (TSO) half of "no lost wakeup": the batch waker / waiter skeleton on the explicit store-buffer machine of
+   coq/WM.  waker = 16-bit relaxed version store; [the fence of deal_n_continuously / try_deal_n_continuously as regenerated
+   from the source: present in the skeleton iff it is seq_cst]; load of the waiter half (wakeup_waiters).  waiter = CAS-set
+   waiter bit while the version is still old; futex_wait's kernel-side compare.  For EVERY schedule of instruction steps and
+   store-buffer flushes no execution parks the waiter while the waker misses its waiter bit.  Weakening or removing either
+   fence in the source flips the regenerated flag and this theorem fails; c02_wake_batch_without_fence_refuted is the
+   statement that an execution then exists (bin/check prints it as the replay of a wm- violation).  The single-element waker
+   is one exchange (read-modify-write) of the whole word: safe on the store-buffer machine without any fence. *)
+Require Import Verif.Base.Atomics Verif.WM.TSO Verif.WM.Litmus Verif.WM.LitmusProofs Verif.BQ.BQTso.
+Theorem c02_wake_batch_tso : forall sch,
+  (final (run (init [waker deal_n_fence_is_seq_cst; waiter]) sch) = true ->
+   lost_wakeup (result (run (init [waker deal_n_fence_is_seq_cst; waiter]) sch)) = false) /\
+  (final (run (init [waker try_deal_n_fence_is_seq_cst; waiter]) sch) = true ->
+   lost_wakeup (result (run (init [waker try_deal_n_fence_is_seq_cst; waiter]) sch)) = false).
+Proof. exact bq_wake_batch_tso. Qed.
+Print Assumptions c02_wake_batch_tso.
+
+Theorem c02_wake_single_tso : xchg_waker_is_rmw = true /\
+  forall sch, final (run (init [xchg_waker; waiter]) sch) = true ->
+              xchg_lost (result (run (init [xchg_waker; waiter]) sch)) = false.
+Proof. exact bq_wake_single_tso. Qed.
+Print Assumptions c02_wake_single_tso.
+
+Theorem c02_wake_batch_without_fence_refuted : batch_wake_safe false = false.
+Proof. exact batch_wake_unfenced_refuted. Qed.
+Print Assumptions c02_wake_batch_without_fence_refuted.
+
